@@ -441,7 +441,11 @@ func c08Case(c *core.Ctx) *core.Result {
 			}
 			res.Count("removals_checked", 1)
 		}
-		checkViews(op)
+		// the accessor views are read at random points only: a monitor that read them after every call would itself keep any
+		// memoised view fresh and hide one that goes stale between two reads of a caller
+		if r.Chance(1, 3) {
+			checkViews(op)
+		}
 		// save at random points and at the end
 		if len(res.Findings) == 0 && (i == nOps-1 || r.Chance(1, 12)) {
 			c08CheckSaved(res, d, fail, sect)
@@ -608,7 +612,7 @@ func init() {
 		ID:    "C08",
 		Level: "exploration",
 		Rule: "scripts of append calls (AddParagraph/Formatted/Heading(+bookmark)/Table/PageBreak/Image/ListItem/Footnote/MathFormula/GenerateTOC, every text carrying a unique tag), removals by handle (live, already removed, foreign document, cell paragraph, nil), by paragraph index and element index in {-2..len+1}, " +
-			"interleaved with page-setting and header/footer calls; after EVERY call the body is compared with the reference list (prefix preserved + new suffix for appends, exactly-one-removed or unchanged+false for removals, content untouched for settings calls, GetParagraphs/GetTables agree), and at random points the children of w:body in the saved main part are compared (same order, exactly one w:sectPr, last, iff section settings exist). " +
+			"interleaved with page-setting and header/footer calls; after EVERY call the body is compared with the reference list (prefix preserved + new suffix for appends, exactly-one-removed or unchanged+false for removals, content untouched for settings calls), and at random points GetParagraphs/GetTables are compared with the element list and the children of w:body in the saved main part are compared (same order, exactly one w:sectPr, last, iff section settings exist). " +
 			"Non-trivial: >=5 calls of >=3 kinds; distinct = distinct call sequence.",
 		Cases:         func(t string) int { return tierN(t, 1500, 60000) },
 		Run:           c08Case,
